@@ -57,6 +57,7 @@ type Store struct {
 	ID                     uint64
 	State                  int
 	Down                   int64
+	EdgeMs                 int64 // extra milliseconds of silence beyond Down whole seconds (set by harness ops only)
 	Busy, Pause            bool
 	Add, Rm                bool
 	SS, RS, Pend           int
@@ -451,7 +452,7 @@ func (sp *Spec) Build() (*World, error) {
 			core.SetRegionSize(s.RegionSize),
 			core.SetLeaderSize(s.LeaderSize),
 			core.SetPendingPeerCount(s.Pend),
-			core.SetLastHeartbeatTS(now.Add(-time.Duration(s.Down) * time.Second)),
+			core.SetLastHeartbeatTS(now.Add(-time.Duration(s.Down)*time.Second - time.Duration(s.EdgeMs)*time.Millisecond)),
 			core.AttachAvailableFunc(storelimit.AddPeer, func() bool { return s.Add }),
 			core.AttachAvailableFunc(storelimit.RemovePeer, func() bool { return s.Rm }),
 		}
